@@ -105,6 +105,10 @@ func cmdCorr(args []string) {
 		sb.WriteString("Definition cases : list case := [\n")
 		sb.WriteString(strings.Join(bufs[sh], ";\n"))
 		sb.WriteString("\n].\nDefinition M := Eval vm_compute in run_cases_p " + *proj + " cases.\nPrint M.\n")
+		if *proj == "PTotal" {
+			// how many of the documents are in the domain of C12_identity / C12_total (distinct keys; closed)
+			sb.WriteString("From GS Require Import Tools.DiffIdentity Tools.DiffTotal.\nDefinition W := Eval vm_compute in (length (filter (fun c => wf_swaggerb (c_a c) && closed_swaggerb (c_a c) && closed_swaggerb (c_b c)) cases), length cases).\nPrint W.\n")
+		}
 		if err := os.WriteFile(filepath.Join(*out, fmt.Sprintf("cases_%02d.v", sh)), []byte(sb.String()), 0o644); err != nil {
 			die("%v", err)
 		}
